@@ -88,6 +88,29 @@ def run(case):
                     continue
             if len(holders) != 1:
                 raise Violation(f"state of block {k} lives on {len(holders)} ranks of group {members} (expected exactly one)", holders=holders, sizes={str(r): v for r, v in sizes.items()}, **desc)
+    # the rank that holds a block's state is the rank whose segment of the gather buffer holds the block's view, and those
+    # owners are a largest-first / least-loaded assignment of the (aligned) view sizes
+    from ..blocking import lpt_consistent
+
+    for gid, members in groups.items():
+        geo = results[members[0]].get("buffers")
+        if geo is None:
+            continue
+        for g in geo:
+            seg = g["total"] // G if G else 0
+            owners = []
+            for (off, nb, _), (j, ordinal) in zip(g["views"], g.get("block_ids", [])):
+                owner = off // seg if seg else 0
+                owners.append(owner)
+                if j is None:
+                    continue
+                holders = [grank(r) for r in members for (jj, k), v in results[r]["placement"].items() if jj == j and k.rsplit("block_", 1)[-1] == str(ordinal) and any(n > 0 for n in v)]
+                counters["live_owner_vs_segment"] = counters.get("live_owner_vs_segment", 0) + 1
+                if holders and holders != [owner]:
+                    raise Violation(f"block {ordinal} of parameter {j}: its state lives on group rank(s) {holders} but its communication buffer lies in the segment of group rank {owner}", **desc)
+            ok, why = lpt_consistent([(nb + 63) // 64 * 64 for _, nb, _ in g["views"]], owners, G)  # slots are 64-byte aligned in size
+            if not ok:
+                raise Violation(f"live assignment of blocks to buffer segments is not largest-first-to-least-loaded: {why}", **desc)
     for r in range(W):
         counters["live_buffer_views_checked"] += _check_buffers(torch, results[r].get("buffers"), S["comm"], G, grank(r), dict(desc, rank=r))
     sig = ["live", case["mode"], W, G, S["comm"]]
